@@ -726,8 +726,14 @@ def table_values(row):
         out += [("mid", mid), ("high-d", high - d), ("high", high), ("high+d", high + d)]
     if not any(v == 0 for _, v in out):
         out.append(("zero", 0 if integer else 0.0))
+    if not integer:
+        out.append(("nan", float("nan")))           # not a number: inside no range
+        if high is not None:
+            out += [("+inf", float("inf")), ("-inf", float("-inf"))]
 
     def valid(v):
+        if v != v:
+            return False
         if v < low or (v == low and not li):
             return False
         if high is not None and (v > high or (v == high and not hi)):
